@@ -661,6 +661,7 @@ var allCfgs = []jCfg{{false, false, false}, {true, false, false}, {false, true, 
 func C15(ctx *core.Ctx) error {
 	ctx.Imports = "Val.Model Tree.Schema Tree.Export Tree.JsonSpec Tree.JsonExp Tree.JsonW Check.C15Check"
 	ctx.Rule = "document = generated schema (module m importing mt: containers, lists, choices, leaf-lists, defaults, 22 leaf types incl. empty, bits, identityref across modules, binary, union, int64/uint64 extremes; grouping of mt used at two levels and augmented by m) x data with strings covering every escaper branch (quotes, backslash, controls, <>&, U+2028/9, 2/3/4-byte UTF-8, ill-formed UTF-8) x start selection (root, container, list, list entry, leaf) x writer configuration (Pretty, EnumAsIds, QualifyNamespace) x API (JSONWtr.Node with InsertInto/UpsertInto, WriteJSON, WritePrettyJSON, JSONWtr.JSON); fault sweeps: every failing position 0..len of small documents and boundary positions of documents larger than the 4096-byte buffer; distinct by SHA-256 of the case term; non-trivial = the output has at least one member"
+	ctx.ShardMax = 120000 // many small shards: the classification is dominated by parsing the outputs
 	r := gen.New(ctx.Seed)
 	nSchemas := ctx.Scale(36, 700)
 	sweeps := 0
